@@ -24,7 +24,20 @@ type PropConfig struct {
 	NotCovered  []string `json:"not_covered"`
 	Assumptions []string `json:"assumptions"`
 	Bounded     []string `json:"bounded_cmds"`
+	Standins    []BoundedStandin `json:"bounded_standins"`
 	LevelNote   string   `json:"level_note"`
+}
+
+// BoundedStandin: an in-package test of the real code that stands in, within stated bounds, for a part of the property
+// no contract within reach decides. Its cases never count as obligations; its failures are violations (with the failing
+// input), except classes listed as open known findings.
+type BoundedStandin struct {
+	Name   string `json:"name"`
+	PkgDir string `json:"pkg_dir"` // package directory relative to the repository
+	Test   string `json:"test"`    // test file (under /verif)
+	Run    string `json:"run"`     // -run pattern
+	Bound  string `json:"bound"`   // the bound, in words
+	Covers string `json:"covers"`  // what it stands in for
 }
 
 type KnownFinding struct {
